@@ -26,6 +26,8 @@ enum Item {
     DocRev(&'static str),
     /// SW-SERVICE-ARG in ARGUMENTS (ordered parent)
     Arg(&'static str),
+    /// INCLUDED-DATA-TYPE-SET (no name, no key) holding DATA-TYPE-REFs in the given (possibly unsorted) order
+    TypeSet(&'static [&'static str]),
 }
 
 struct Scenario {
@@ -92,6 +94,12 @@ fn scenarios() -> Vec<Scenario> {
             ordered: false,
             repeat: true,
         },
+        Scenario {
+            name: "keyless-siblings-with-unsorted-content",
+            pool: vec![Item::TypeSet(&["/T/B", "/T/A"]), Item::TypeSet(&["/T/A", "/T/C"]), Item::TypeSet(&["/T/A"]), Item::TypeSet(&["/T/C", "/T/B", "/T/A"]), Item::TypeSet(&["/T/A", "/T/B"])],
+            ordered: false,
+            repeat: true,
+        },
         Scenario { name: "ordered-doc-revisions", pool: vec![Item::DocRev("2.0.0"), Item::DocRev("1.0.0"), Item::DocRev("10.0.0"), Item::DocRev("1.0.0;b")], ordered: true, repeat: true },
         Scenario { name: "ordered-arguments", pool: names.iter().take(5).map(|n| Item::Arg(n)).collect(), ordered: true, repeat: false },
     ]
@@ -121,6 +129,15 @@ fn build_parent(s: &Scenario) -> (AutosarModel, ArxmlFile, Element) {
                     .unwrap(),
                 "references-by-dest" => els.create_named_sub_element(ElementName::System, "sys").unwrap().create_sub_element(ElementName::FibexElements).unwrap(),
                 "ordered-arguments" => els.create_named_sub_element(ElementName::BswModuleEntry, "entry").unwrap().create_sub_element(ElementName::Arguments).unwrap(),
+                "keyless-siblings-with-unsorted-content" => els
+                    .create_named_sub_element(ElementName::ApplicationSwComponentType, "swc")
+                    .unwrap()
+                    .create_sub_element(ElementName::InternalBehaviors)
+                    .unwrap()
+                    .create_named_sub_element(ElementName::SwcInternalBehavior, "ib")
+                    .unwrap()
+                    .create_sub_element(ElementName::IncludedDataTypeSets)
+                    .unwrap(),
                 other => panic!("unknown scenario {other}"),
             }
         }
@@ -170,6 +187,16 @@ fn create_item(parent: &Element, it: &Item) -> Result<Element, AutosarDataError>
             Ok(d)
         }
         Item::Arg(name) => parent.create_named_sub_element(ElementName::SwServiceArg, name),
+        Item::TypeSet(refs) => {
+            let set = parent.create_sub_element(ElementName::IncludedDataTypeSet)?;
+            let list = set.create_sub_element(ElementName::DataTypeRefs)?;
+            for r in refs.iter() {
+                let e = list.create_sub_element(ElementName::DataTypeRef)?;
+                e.set_attribute(AttributeName::Dest, EnumItem::ImplementationDataType)?;
+                e.set_character_data(*r)?;
+            }
+            Ok(set)
+        }
     }
 }
 
@@ -395,6 +422,7 @@ fn item_label(i: &Item) -> String {
         Item::Ref(d, t, c) => format!("ref(dest={d},{t},comment={})", c.unwrap_or("-")),
         Item::DocRev(l) => format!("rev:{l}"),
         Item::Arg(n) => format!("arg:{n}"),
+        Item::TypeSet(r) => format!("typeset{r:?}"),
     }
 }
 
